@@ -293,6 +293,19 @@ pub fn run_pipeline(scn: &Scenario) -> Value {
             }
             chain0(p, scn, 0)
         }
+        Src::SliceCopied => {
+            if scn.ops.len() > 1 || is_with_index(scn) {
+                return Value::Unsupported;
+            }
+            let vals = Arc::new(scn.vals.clone());
+            let positions: Vec<usize> = (0..scn.vals.len()).collect();
+            let r = {
+                let p = set_params(positions.par(), scn, 0).copied().map(mk_range_src(vals));
+                chain_s0(p, scn, 0)
+            };
+            drop(positions);
+            r
+        }
         Src::Deque | Src::List | Src::BSet | Src::Heap | Src::BMap => {
             use std::collections::{BTreeMap, BTreeSet, BinaryHeap, LinkedList, VecDeque};
             if scn.ops.len() > 1 || is_with_index(scn) {
